@@ -110,6 +110,9 @@ fn compile_pipeline(
     // extract an atomic pipeline from back of the pipeline and stash preceding part into context
     let pipeline = anchor::extract_atomic(pipeline, &mut ctx.anchor);
 
+    #[cfg(feature = "verif")]
+    crate::sql::verif_hooks::trace_extracted(&ctx.anchor, &pipeline);
+
     // ensure names for all columns that need it
     ensure_names(&pipeline, &mut ctx.anchor);
 
